@@ -183,12 +183,15 @@ def alignDims {α} (arrays : List (DimArray α)) : Except Err (List (DimArray α
     let newdims := getDims (arrays.map (·.axes))
     arrays.mapM (fun o => reshape o newdims)
 
-/-- `broadcast(other)` with the target given as a list of axes -/
+/-- `broadcast(other)` with the target given as a list of axes.  The repeat is asked for with the target axis' LABELS
+only (`newobj.repeat(newaxis.values, axis=newaxis.name)`): the repeated axis is a fresh `Axis(values, name)` and
+carries no metadata -/
 def broadcast {α} (a : DimArray α) (target : List Axis) : Except Err (DimArray α) := do
   let o ← reshape a (target.map (·.name))
   target.reverse.foldlM (fun (o : DimArray α) t =>
     match o.axes.find? (·.name == t.name) with
-    | some ax => if ax.size == 1 && (t.size != 1 || !a.dims.contains t.name) then repeatAxis o t (.name t.name) else pure o
+    | some ax => if ax.size == 1 && (t.size != 1 || !a.dims.contains t.name)
+        then repeatAxis o t.bare (.name t.name) else pure o
     | none => .error .value) o
 
 /-- `broadcast_arrays(*arrays)` -/
